@@ -21,7 +21,6 @@ import (
 	"github.com/coredhcp/coredhcp/config"
 	"github.com/coredhcp/coredhcp/handler"
 	"github.com/coredhcp/coredhcp/logger"
-	"github.com/coredhcp/coredhcp/plugins"
 	"github.com/coredhcp/coredhcp/server"
 	"github.com/coredhcp/coredhcp/zzverif/report"
 	"github.com/coredhcp/coredhcp/zzverif/simrt"
@@ -51,7 +50,35 @@ func (p PluginConf) String() string { return p.Name + " " + strings.Join(p.Args,
 // ListenerSpec describes one listener of the server.
 type ListenerSpec struct {
 	V6      bool
-	IfIndex int // interface it is bound to; 0 = unbound
+	IfIndex int    // interface it is bound to (listen address with a zone); 0 = unbound
+	Addr    net.IP // listen address; nil = the wildcard address (DHCPv6 bound to an interface: ff02::1:2, as the default configuration does)
+	Port    int    // 0 = 67 / 547
+	Zone    string // set when the listeners come from a configuration file
+}
+
+// listenAddr is the net.UDPAddr the configuration carries for a listener.
+func (w *World) listenAddr(ls ListenerSpec) net.UDPAddr {
+	a := net.UDPAddr{IP: ls.Addr, Port: ls.Port, Zone: ls.Zone}
+	if a.Port == 0 {
+		a.Port = 67
+		if ls.V6 {
+			a.Port = 547
+		}
+	}
+	if a.Zone == "" && ls.IfIndex != 0 {
+		a.Zone = w.iface(ls.IfIndex).Name
+	}
+	if a.IP == nil {
+		switch {
+		case !ls.V6:
+			a.IP = net.IPv4zero
+		case ls.IfIndex != 0:
+			a.IP = net.ParseIP("ff02::1:2")
+		default:
+			a.IP = net.IPv6unspecified
+		}
+	}
+	return a
 }
 
 // DG is one datagram sent towards the server.
@@ -127,6 +154,7 @@ type World struct {
 	Has4          bool
 	Has6          bool
 	UseConfigFile bool
+	WaitReturned  []int // incarnations whose Servers.Wait returned
 	ConfigText    string
 	Ifaces        []simrt.Iface
 	LSpecs        []ListenerSpec
@@ -173,6 +201,11 @@ func (w *World) Violate(prop, class, format string, a ...interface{}) {
 	if w.O.Prop == "C13" && prop == "C01" && w.O.Scenario == "chain" && (strings.HasPrefix(class, "panic/server/handle.go") || strings.HasPrefix(class, "panic/plugins/plugin.go")) {
 		// C13: the handlers instantiated are exactly the listed plugins that support the protocol (a nil entry panics here)
 		f = report.Finding{Property: "C13", Class: "handler-list/" + class, Detail: "configuration: " + w.describeChains() + "\n" + f.Detail}
+		prop = "C13"
+	}
+	if w.O.Prop == "C13" && prop == "C01" && class == "listener-not-served" {
+		// C13: for every request the handlers are invoked in order (every listener of a protocol serves the same chain)
+		f = report.Finding{Property: "C13", Class: "request-never-dispatched", Detail: f.Detail}
 		prop = "C13"
 	}
 	if w.O.Prop == "C19" && prop == "C01" {
@@ -229,7 +262,7 @@ func (f fatalExit) String() string {
 	return fmt.Sprintf("log.Fatal/os.Exit(%d) called by the server", f.code)
 }
 
-func (w *World) buildConfig(inc int) (*config.Config, error) {
+func (w *World) buildConfig(inc int, specs []ListenerSpec) (*config.Config, error) {
 	if w.UseConfigFile {
 		p := filepath.Join(w.Dir, fmt.Sprintf("config-%d.yml", inc))
 		if err := os.WriteFile(p, []byte(w.ConfigText), 0o644); err != nil {
@@ -251,6 +284,14 @@ func (w *World) buildConfig(inc int) (*config.Config, error) {
 	if w.Has6 {
 		c.Server6 = mk(w.Chain6)
 	}
+	for _, ls := range specs {
+		switch {
+		case ls.V6 && c.Server6 != nil:
+			c.Server6.Addresses = append(c.Server6.Addresses, w.listenAddr(ls))
+		case !ls.V6 && c.Server4 != nil:
+			c.Server4.Addresses = append(c.Server4.Addresses, w.listenAddr(ls))
+		}
+	}
 	return c, nil
 }
 
@@ -270,78 +311,84 @@ type startResult struct {
 	Inc     int
 	Err     string
 	Started bool
-	Ports   []int
 	LSpecs  []ListenerSpec // set when the listeners come from the configuration file
 }
 
-// serverMain is the body of the "main" task of one incarnation: the real
-// plugin loader, then one real Serve loop per listener.
+// waitResult is reported when Servers.Wait returns (a listener failed and the others were closed).
+type waitResult struct {
+	Inc int
+	Err string
+}
+
+// serverMain is the body of the "main" task of one incarnation, the same two calls cmds/coredhcp makes after
+// loading the configuration: the real server.Start (plugin loader, listen4/listen6 on simulated sockets, one Serve
+// goroutine per listener) and then Servers.Wait.
 func (w *World) serverMain(inc int, useFile bool, specs []ListenerSpec) {
 	res := &startResult{Inc: inc}
-	defer simrt.UserLog(res)
-	conf, err := w.buildConfig(inc)
+	conf, err := w.buildConfig(inc, specs)
 	if err != nil {
 		res.Err = "config: " + err.Error()
-		return
-	}
-	h4, h6, err := plugins.LoadPlugins(conf)
-	if err != nil {
-		res.Err = err.Error()
+		simrt.UserLog(res)
 		return
 	}
 	if useFile {
-		// listeners as configured: a zone binds the listener to that interface (as listen4/listen6 do)
-		specs = nil
-		add := func(sc *config.ServerConfig, v6 bool) bool {
+		// listeners as configured; Start opens the DHCPv6 ones first
+		specs = []ListenerSpec{}
+		add := func(sc *config.ServerConfig, v6 bool) {
 			if sc == nil {
-				return true
+				return
 			}
 			for _, a := range sc.Addresses {
-				ls := ListenerSpec{V6: v6}
+				ls := ListenerSpec{V6: v6, Addr: a.IP, Port: a.Port, Zone: a.Zone}
 				if a.Zone != "" {
-					ifi, err := simrt.InterfaceByName(a.Zone)
-					if err != nil {
-						res.Err = "listen: " + err.Error()
-						return false
+					if ifi, err := simrt.InterfaceByName(a.Zone); err == nil {
+						ls.IfIndex = ifi.Index
 					}
-					ls.IfIndex = ifi.Index
 				}
 				specs = append(specs, ls)
 			}
-			return true
 		}
-		if !add(conf.Server6, true) || !add(conf.Server4, false) {
-			return
-		}
+		add(conf.Server6, true)
+		add(conf.Server4, false)
 		res.LSpecs = specs
 	}
-	res.Ports = make([]int, len(specs))
-	var serve []func() error
-	for i, ls := range specs {
-		res.Ports[i] = -1
-		if ls.V6 {
-			if conf.Server6 == nil {
-				continue
-			}
-			l := server.NewSimListener6(h6, w.iface(ls.IfIndex))
-			res.Ports[i] = l.Port
-			serve = append(serve, l.Serve)
-		} else {
-			if conf.Server4 == nil {
-				continue
-			}
-			l := server.NewSimListener4(h4, w.iface(ls.IfIndex))
-			res.Ports[i] = l.Port
-			serve = append(serve, l.Serve)
-		}
+	srv, err := server.Start(conf)
+	if err != nil {
+		res.Err = err.Error()
+		simrt.UserLog(res)
+		return
 	}
 	res.Started = true
-	for _, f := range serve {
-		f := f
-		simrt.Go(-1, func() {
-			simrt.SetKind("serve")
-			f()
-		})
+	simrt.UserLog(res)
+	// the start-up task ends here (that is what tells the world the server is up); Wait runs in a task of its own
+	simrt.Go(-1, func() {
+		simrt.SetKind("wait")
+		wr := &waitResult{Inc: inc}
+		if err := srv.Wait(); err != nil {
+			wr.Err = err.Error()
+		}
+		simrt.UserLog(wr)
+	})
+}
+
+// bindPorts matches the sockets the incarnation opened to the listener specs, by what each socket was bound to
+// (protocol, interface, address, port) and not by the order in which Start happened to open them.
+func (w *World) bindPorts() {
+	w.ports = make([]int, len(w.LSpecs))
+	for i := range w.ports {
+		w.ports[i] = -1
+	}
+	used := map[int]bool{}
+	for i, ls := range w.LSpecs {
+		a := w.listenAddr(ls)
+		for _, p := range w.Sim.Ports() {
+			if p.Inc != w.Inc || used[p.ID] || p.V6 != ls.V6 || p.Port != a.Port || p.Zone != a.Zone || !net.IP(p.IP).Equal(a.IP) {
+				continue
+			}
+			used[p.ID] = true
+			w.ports[i] = p.ID
+			break
+		}
 	}
 }
 
@@ -367,18 +414,9 @@ func (w *World) Up() bool { return w.Inc > 0 && w.Started[w.Inc-1] }
 
 // Send hands a datagram to the simulated network (scheduler context).
 func (w *World) Send(li int, b []byte, src net.UDPAddr, ifindex int, kind string, actor int, meta interface{}) *DG {
-	if b := w.LSpecs[li].IfIndex; b != 0 {
-		// a listener bound to an interface does not ask for control messages (listen4/listen6 enable them only when
-		// unbound); when one is present anyway it must not override the binding
-		switch w.T.Draw(4) {
-		case 0:
-			ifindex = b + 7
-		case 1:
-			ifindex = b
-		default:
-			ifindex = 0
-		}
-	}
+	// ifindex is the interface the datagram arrives on. Whether the server learns it is up to the socket: the
+	// simulated ReadFrom attaches a control message only if the server enabled one with SetControlMessage
+	// (listen4/listen6 do that for listeners that are not bound to an interface).
 	w.nextDG++
 	dg := &DG{ID: w.nextDG, L: li, V6: w.LSpecs[li].V6, Bytes: b, Src: src, IfIndex: ifindex, Kind: kind, Actor: actor, SentAt: w.Sim.Now(), Meta: meta}
 	w.DGs = append(w.DGs, dg)
@@ -431,7 +469,15 @@ func (w *World) deliver(dg *DG) {
 	dg.Inc = w.Inc
 	dg.Call = simrt.NextSeq()
 	w.Delivered++
-	w.Sim.Inject(w.ports[dg.L], simrt.Datagram{ID: dg.ID, Bytes: dg.Bytes, SrcIP: dg.Src.IP, SrcPort: dg.Src.Port, SrcZone: dg.Src.Zone, IfIndex: dg.IfIndex})
+	dst := w.listenAddr(w.LSpecs[dg.L]).IP
+	if dst.IsUnspecified() {
+		// sent to the limited broadcast address / the All_DHCP_Relay_Agents_and_Servers group
+		dst = net.IPv4bcast.To4()
+		if dg.V6 {
+			dst = net.ParseIP("ff02::1:2")
+		}
+	}
+	w.Sim.Inject(w.ports[dg.L], simrt.Datagram{ID: dg.ID, Bytes: dg.Bytes, SrcIP: dg.Src.IP, SrcPort: dg.Src.Port, SrcZone: dg.Src.Zone, IfIndex: dg.IfIndex, DstIP: dst})
 	w.hist("dg%d -> listener %d: %s", dg.ID, dg.L, dg.Kind)
 }
 
@@ -464,10 +510,13 @@ func (w *World) drainUserLog() {
 				if sr.LSpecs != nil {
 					w.LSpecs = sr.LSpecs
 				}
-				if sr.Ports != nil {
-					w.ports = sr.Ports
-				}
+				w.bindPorts()
 			}
+			continue
+		}
+		if wr, ok := u.Rec.(*waitResult); ok {
+			w.hist("incarnation %d: Servers.Wait returned: %s", wr.Inc, wr.Err)
+			w.WaitReturned = append(w.WaitReturned, wr.Inc)
 			continue
 		}
 		if ll, ok := u.Rec.(*LogLine); ok {
@@ -779,6 +828,20 @@ func (w *World) afterRun(rr simrt.RunResult) {
 			fmt.Fprintf(&sb, " task %d (%s, dg%d) at %s;", t.ID, t.Kind, t.Tag, simrt.SiteName(t.LastSite))
 		}
 		w.Violate("C01", "wedge", "server tasks are blocked forever on a lock with nothing left to run:%s", sb.String())
+	}
+	if rr.Reason == "quiescent" && !w.Sim.Stopped() {
+		// nothing is left to run: every datagram that reached a socket of the live incarnation has to be done with
+		for _, dg := range w.DGs {
+			if !dg.Delivered || dg.Handled || dg.Killed || dg.Inc != w.Inc || !w.Up() || dg.L >= len(w.ports) || w.ports[dg.L] < 0 || !w.Sim.PortOpen(w.ports[dg.L]) {
+				continue
+			}
+			if len(dg.Invs) == 0 && len(dg.Replies) == 0 && w.Sim.PortBacklog(w.ports[dg.L]) > 0 {
+				w.Violate("C01", "listener-not-served", "dg%d (%s) was delivered to listener %d %+v at t=%.3fs and is still queued on its socket with the server idle: no receive loop reads that socket", dg.ID, dg.Kind, dg.L, w.LSpecs[dg.L], float64(dg.DeliveredAt)/1e9)
+			} else {
+				w.Violate("C01", "handler-never-returns", "dg%d (%s) was read by the server but its handling never finished, and nothing is left to run", dg.ID, dg.Kind)
+			}
+			break
+		}
 	}
 }
 
